@@ -310,6 +310,17 @@ Why(d) ==
                THEN "negative-fluid-beyond-clad" ELSE "negative-area")
          ELSE IF \E b \in BlocksUsed(d) : CertainlyExceeds(d.blocks[b]) THEN "exceeds-block"
          ELSE "pins-in-duct")
+    ELSE IF v = "MultConflict" THEN
+        \* which way the written multiplicity disagrees with the number of lattice sites (BlockBlueprint.construct refuses both)
+        (IF \E b \in BlocksUsed(d) : \E c \in 1..Len(d.blocks[b].comps) :
+               LET C == d.blocks[b].comps[c]  n == Cardinality(PinCells(d, d.blocks[b], C)) IN
+               "mult" \in DOMAIN C.dims /\ n > 0 /\ C.dims["mult"].k = "num" /\ C.dims["mult"].v # 1 /\ C.dims["mult"].v < n
+         THEN "fewer-than-sites"
+         ELSE IF \E b \in BlocksUsed(d) : \E c \in 1..Len(d.blocks[b].comps) :
+               LET C == d.blocks[b].comps[c]  n == Cardinality(PinCells(d, d.blocks[b], C)) IN
+               "mult" \in DOMAIN C.dims /\ n > 0 /\ C.dims["mult"].k = "num" /\ C.dims["mult"].v > n
+         THEN "more-than-sites"
+         ELSE "linked")
     ELSE ""
 \* documents about which the specification says nothing (kept out of the explored set by the state constraint)
 Modelled(d) ==
